@@ -8,7 +8,8 @@ class <type>                  ->  C c2m <cls> | sysv <cls> | aligned=..
 proto <ret|void> ; <t> ; ...  ->  P c2m <ret> <arg> ... | sysv <ret> <arg> ...
 merge                         ->  6x6 table of c2mMerge over N I S X U M, row-major
 ```
-type syntax (prefix): scalar name | `A n T` | `S m* .` | `U m* .`;  member m: `p T` | `b w named T` | `a T`.
+enum <least> <greatest>         ->  E c2m <base> <size> | gcc <base> <size>
+type syntax (prefix): scalar name | `E:<least>:<greatest>` (enumerated type) | `A n T` | `S m* .` | `U m* .`;  member m: `p T` | `b w named T` | `a T`.
 member output: `bitpos:nbits` of every nameable member (through anonymous members), declaration order.
 -/
 open MirVerif.Layout MirVerif.Classify
@@ -21,34 +22,44 @@ def scOfName : String → Option Sc
   | "ptr" => some .ptr | "enum4" => some .enum4 | "enum8" => some .enum8
   | _ => none
 
+/-- scalar token `E:<least>:<greatest>`: an enumerated type with these extreme enumerators;
+`er` = the rule that picks its underlying type (c2mir's or the platform compiler's) -/
+def enumOfName (er : Int → Int → Sc) (s : String) : Option Sc :=
+  match s.splitOn ":" with
+  | ["E", a, b] => do
+    let mn ← a.toInt?
+    let mx ← b.toInt?
+    if mn ≤ 0 ∧ 0 ≤ mx then some (er mn mx) else none
+  | _ => none
+
 mutual
-partial def parseTy : List String → Option (CTy × List String)
+partial def parseTy (er : Int → Int → Sc) : List String → Option (CTy × List String)
   | "A" :: n :: rest => do
-    let (t, r) ← parseTy rest
+    let (t, r) ← parseTy er rest
     pure (.arr n.toNat! t, r)
   | "S" :: rest => do
-    let (ms, r) ← parseMems rest
+    let (ms, r) ← parseMems er rest
     pure (.agg false ms, r)
   | "U" :: rest => do
-    let (ms, r) ← parseMems rest
+    let (ms, r) ← parseMems er rest
     pure (.agg true ms, r)
   | s :: rest => do
-    let sc ← scOfName s
+    let sc ← (scOfName s <|> enumOfName er s)
     pure (.sc sc, rest)
   | [] => none
-partial def parseMems : List String → Option (Mems × List String)
+partial def parseMems (er : Int → Int → Sc) : List String → Option (Mems × List String)
   | "." :: rest => some (.nil, rest)
   | "p" :: rest => do
-    let (t, r) ← parseTy rest
-    let (ms, r') ← parseMems r
+    let (t, r) ← parseTy er rest
+    let (ms, r') ← parseMems er r
     pure (.cons .plain t ms, r')
   | "a" :: rest => do
-    let (t, r) ← parseTy rest
-    let (ms, r') ← parseMems r
+    let (t, r) ← parseTy er rest
+    let (ms, r') ← parseMems er r
     pure (.cons .anon t ms, r')
   | "b" :: w :: nm :: rest => do
-    let (t, r) ← parseTy rest
-    let (ms, r') ← parseMems r
+    let (t, r) ← parseTy er rest
+    let (ms, r') ← parseMems er r
     pure (.cons (.bf w.toNat! (nm == "1")) t ms, r')
   | _ => none
 end
@@ -82,38 +93,53 @@ def splitOnTok (l : List String) (sep : String) : List (List String) :=
     if s == sep then (acc.2.reverse :: acc.1, []) else (acc.1, s :: acc.2)) ([], [])
   (r.2.reverse :: r.1).reverse
 
+def showSc : Sc → String
+  | .int => "int" | .uint => "uint" | .long => "long" | .ulong => "ulong" | .llong => "llong" | .ullong => "ullong"
+  | _ => "?"
+
+def parseProto (er : Int → Int → Sc) (rest : List String) : Option (Option CTy × List CTy) :=
+  match splitOnTok rest ";" with
+  | retToks :: argToks =>
+    let ret : Option (Option CTy) :=
+      if retToks == ["void"] then some none
+      else match parseTy er retToks with | some (t, []) => some (some t) | _ => none
+    let args := argToks.map fun a => match parseTy er a with | some (t, []) => some t | _ => none
+    if ret.isNone || args.any (·.isNone) then none
+    else some (ret.get!, args.map (·.get!))
+  | _ => none
+
+/- In every command the c2m column is computed from the type read with c2mir's enum rule and the
+sysv column from the type read with the platform compiler's enum rule. -/
 def step (toks : List String) : String :=
   match toks with
+  | ["enum", a, b] =>
+    match a.toInt?, b.toInt? with
+    | some mn, some mx =>
+      let c := c2mEnumBase mn mx
+      let g := gccEnumBase mn mx
+      s!"E c2m {showSc c} {c.size} | gcc {showSc g} {g.size}"
+    | _, _ => "ERR parse"
   | "layout" :: rest =>
-    match parseTy rest with
-    | some (t, []) =>
-      s!"L c2m {showLay c2mLay t} | sysv {showLay sysvLay t} | wf={b01 t.wf} nobf={b01 t.noBf} simple={b01 t.bfSimple}"
-    | _ => "ERR parse"
+    match parseTy c2mEnumBase rest, parseTy gccEnumBase rest with
+    | some (tc, []), some (t, []) =>
+      s!"L c2m {showLay c2mLay tc} | sysv {showLay sysvLay t} | wf={b01 t.wf} nobf={b01 t.noBf} simple={b01 t.bfSimple}"
+    | _, _ => "ERR parse"
   | "class" :: rest =>
-    match parseTy rest with
-    | some (t, []) =>
-      let c := match c2mClassify t with | none => "M" | some cs => showClsList cs
-      let valid := match c2mClassify t with | none => true | some cs => validCls cs
+    match parseTy c2mEnumBase rest, parseTy gccEnumBase rest with
+    | some (tc, []), some (t, []) =>
+      let c := match c2mClassify tc with | none => "M" | some cs => showClsList cs
+      let valid := match c2mClassify tc with | none => true | some cs => validCls cs
       s!"C c2m {c} | sysv {showClsList (sysvClass sysvLay t)} | aligned={b01 (clsAligned t)} valid={b01 valid} nobf={b01 t.noBf}"
-    | _ => "ERR parse"
+    | _, _ => "ERR parse"
   | "proto" :: rest =>
-    let parts := splitOnTok rest ";"
-    match parts with
-    | retToks :: argToks =>
-      let ret : Option (Option CTy) :=
-        if retToks == ["void"] then some none
-        else match parseTy retToks with | some (t, []) => some (some t) | _ => none
-      let args := argToks.map fun a => match parseTy a with | some (t, []) => some t | _ => none
-      if ret.isNone || args.any (·.isNone) then "ERR parse"
-      else
-        let ret := ret.get!
-        let args := args.map (·.get!)
-        let c := c2mProto ret args
-        let s := sysvProto sysvLay ret args
-        let sh := fun (r : Option RetLoc × List ArgLoc) =>
-          " ".intercalate (showRetLoc r.1 :: r.2.map showArgLoc)
-        s!"P c2m {sh c} | sysv {sh s}"
-    | _ => "ERR parse"
+    match parseProto c2mEnumBase rest, parseProto gccEnumBase rest with
+    | some (retc, argsc), some (ret, args) =>
+      let c := c2mProto retc argsc
+      let s := sysvProto sysvLay ret args
+      let sh := fun (r : Option RetLoc × List ArgLoc) =>
+        " ".intercalate (showRetLoc r.1 :: r.2.map showArgLoc)
+      s!"P c2m {sh c} | sysv {sh s}"
+    | _, _ => "ERR parse"
   | ["merge"] =>
     let cs : List Cls := [.no, .int, .sse, .x87, .x87up, .mem]
     String.join (cs.flatMap fun a => cs.map fun b => showCls (c2mMerge a b))
